@@ -430,9 +430,13 @@ theorem wsafe_runOp (op : Op) : WSafe (fun w => runOp S w op) := by
     intro w; simp only [runOp]
     exact wsafe_onRoot (safe_ite (fun n => n.init == I_SENC) (safe_streamEncode S c act len) safe_skip) w
   | decode r slot => exact wsafe_decode S r slot
-  | filtersUpdate c =>
+  | filtersUpdate cur c =>
     intro w; simp only [runOp]
-    exact wsafe_onRoot (safe_ite (fun n => n.init == I_SENC) (safe_streamEncoderUpdate S c) (fun n => Spec.pure (by ceqn))) w
+    split
+    · exact Spec.pure (by ceqW)
+    · exact wsafe_onRoot (safe_ite (fun n => n.init == I_SENC) (safe_streamEncoderUpdate S cur c) (fun n => Spec.pure (by ceqn))) w
+  | badFlagsInit which =>
+    intro w; simp only [runOp]; exact wsafe_strmInit S (safe_seq (safe_guard _) (safe_failOp _)) w
   | lzmaEnd =>
     intro w; simp only [runOp]
     refine Spec.bind (spec_lzmaEnd w) (fun w' => ?_)
@@ -516,12 +520,12 @@ theorem good_of_wf {h : Heap} (hw : HeapWF h) : Good h ([] ++ h.live) := by
 def isInit : Op → Bool
   | .streamEncoder _ | .aloneEncoder _ | .microEncoder _ | .rawEncoder _ | .rawDecoder _ | .blockEncoder _
   | .blockDecoder _ | .indexEncoder | .streamDecoder | .autoDecoder | .aloneDecoder | .lzipDecoder | .microDecoder
-  | .indexDecoder | .fileInfoDecoder => true
+  | .indexDecoder | .fileInfoDecoder | .badFlagsInit _ => true
   | _ => false
 
 /-- calls that work on the handle only (they get no caller-owned index or filter array to write to) -/
 def isHandleOp : Op → Bool
-  | .encode .. | .filtersUpdate _ | .lzmaEnd => true
+  | .encode .. | .filtersUpdate .. | .lzmaEnd => true
   | op => isInit op
 
 theorem strmInit_fail (op : NodeOp) (w : World) (f : Oracle) (h : Heap)
@@ -610,17 +614,29 @@ theorem replaceOpts_fail_keeps (sizes : List (Option Nat)) {body : NodeOp} (hb :
     · simp only [hne, run_bind, run_pure] at hr
       simp [OK] at hr
 
-theorem streamEncoderUpdate_fail_keeps (c : Chain) (i self : Nat) (bufs : List (Option Nat)) (data : List Nat)
+theorem keeps_failOp (r : Ret) : KeepsOpts (failOp r) := by
+  intro i self bufs data opts ix0 ix1 s0 s1 f h
+  exact ⟨_, _, _, _, _, _, rfl⟩
+
+theorem keeps_skip : KeepsOpts skip := by
+  intro i self bufs data opts ix0 ix1 s0 s1 f h
+  exact ⟨_, _, _, _, _, _, rfl⟩
+
+theorem streamEncoderUpdate_fail_keeps (cur c : Chain) (i self : Nat) (bufs : List (Option Nat)) (data : List Nat)
     (opts : List (Option Nat)) (ix0 ix1 : Option Index) (s0 s1 : Node) (fail : Oracle) (h : Heap)
-    (hr : (streamEncoderUpdate S c (.mk i self bufs data opts ix0 ix1 s0 s1) fail h).1.1 ≠ OK) :
+    (hr : (streamEncoderUpdate S cur c (.mk i self bufs data opts ix0 ix1 s0 s1) fail h).1.1 ≠ OK) :
     ∃ bufs' data' ix0' ix1' s0' s1',
-      (streamEncoderUpdate S c (.mk i self bufs data opts ix0 ix1 s0 s1) fail h).1.2 = .mk i self bufs' data' opts ix0' ix1' s0' s1' := by
+      (streamEncoderUpdate S cur c (.mk i self bufs data opts ix0 ix1 s0 s1) fail h).1.2 = .mk i self bufs' data' opts ix0' ix1' s0' s1' := by
   unfold streamEncoderUpdate at hr ⊢
   refine replaceOpts_fail_keeps _ ?_ i self bufs data opts ix0 ix1 s0 s1 fail h hr
   intro i self bufs data opts ix0 ix1 s0 s1 f h
   simp only []
   split
   · exact keeps_seq (keeps_setData _ _) (keeps_seq (keeps_onSub0 _) (keeps_setData _ _)) i self bufs data opts ix0 ix1 s0 s1 f h
-  · split <;> exact ⟨_, _, _, _, _, _, rfl⟩
+  · split
+    · split
+      · exact keeps_failOp _ i self bufs data opts ix0 ix1 s0 s1 f h
+      · exact keeps_skip i self bufs data opts ix0 ix1 s0 s1 f h
+    · exact ⟨_, _, _, _, _, _, rfl⟩
 
 end XzVerif.Alloc
